@@ -21,16 +21,28 @@ LEVEL = "exploration"
 T = "aarch64-linux-gnu"
 
 
-def gen(ctx, r, ci, pie):
-    n = r.choice([10, 14, 20]) if ctx.quick else r.choice([10, 20, 40, 60])
-    total_mib = r.choice([200, 260, 300]) if ctx.quick else r.choice([136, 200, 300, 520])
-    per = total_mib * (1 << 20) // n
+CLASSES = ["small-functions", "small-functions", "large-functions", "mixed-alignment"]
+
+
+def gen(ctx, r, ci, pie, cls):
+    """cls: small-functions (<= 2 MiB per function, one alignment class: the shape wild's thunk design
+    targets), large-functions (5-15 MiB per function), mixed-alignment (functions of several alignment
+    classes, each class holding > 128 MiB in total)."""
+    total_mib = r.choice([200, 220]) if ctx.quick else r.choice([136, 200, 300, 520])
+    if cls == "small-functions":
+        per = r.choice([1, 2]) << 20
+    elif cls == "large-functions":
+        per = r.choice([5, 8, 13]) << 20
+    else:
+        per = r.choice([1, 2]) << 20
+        total_mib = max(total_mib, 280)
+    n = total_mib * (1 << 20) // per
     sites = []   # (marker, target, kind)
-    objs = []
     ext = [f"ext{ci}_{k}" for k in range(3)] if pie else []
+    srcs = []
     for i in range(n):
         s = []
-        al = r.choice([2, 2, 4, 12, 16])
+        al = 2 if cls != "mixed-alignment" else r.choice([2, 2, 4, 12, 16])
         s.append(f'.section .text.f{i},"ax",@progbits\n.p2align {al}\n.globl f{ci}_{i}\n.type f{ci}_{i},%function\nf{ci}_{i}:\n')
         k = 0
         targets = [0, n - 1, r.randrange(n), r.randrange(n), (i + n // 2) % n]
@@ -59,7 +71,8 @@ def gen(ctx, r, ci, pie):
         s.append(f'.globl fill{ci}_{i}\nfill{ci}_{i}:\n    .space {per - 64}\n')
         if i == 0:
             s.append(f'.section .text.start,"ax",@progbits\n.p2align 2\n.globl _start\n_start: bl f{ci}_0\n    ret\n')
-        objs.append(tools.assemble(ctx, "".join(s), name=f"c11-{ci}-{i}", target=T))
+        srcs.append("".join(s))
+    objs = pmap(lambda t: tools.assemble(ctx, t[1], name=f"c11-{ci}-{t[0]}", target=T), list(enumerate(srcs)), workers=8)
     return objs, sites, ext
 
 
@@ -138,7 +151,8 @@ def one(ctx, ci):
         return
     r = rng("C11", ctx.seed, ci)
     pie = r.random() < 0.5
-    objs, sites, ext = gen(ctx, r, ci, pie)
+    cls = CLASSES[ci % len(CLASSES)]
+    objs, sites, ext = gen(ctx, r, ci, pie, cls)
     wd = ctx.scratch.dir("c", ci)
     args = ["-m", "aarch64linux", *objs, "--no-gc-sections"]
     if pie:
@@ -163,7 +177,7 @@ def one(ctx, ci):
                 os.unlink(lo)
             msg = rw.errtext().strip()
             if ok and ("out of range" in msg.lower() or "outside of bounds" in msg.lower() or "thunk" in msg.lower()):
-                ctx.violation(f"link-fails:branch-range:{'pie' if pie else 'static'}", f"wild fails although ld.lld links the same inputs: {msg[-500:]}",
+                ctx.violation(f"link-fails:branch-range:class={cls}:{'pie' if pie else 'static'}", f"wild fails although ld.lld links the same inputs: {msg[-500:]}",
                               case=ci, files={"cmd.txt": "wild " + " ".join(args)})
             else:
                 ctx.inconclusive(f"wild rejected the case: {msg[:100]} (lld ok={ok})")
@@ -174,14 +188,15 @@ def one(ctx, ci):
         if os.path.exists(out):
             os.unlink(out)
     for sig, msg in V[:3]:
-        ctx.violation(f"{sig}:{'pie' if pie else 'static'}", msg, case=ci, files={"cmd.txt": "wild " + " ".join(args)})
+        ctx.violation(f"{sig}:class={cls}:{'pie' if pie else 'static'}", msg, case=ci, files={"cmd.txt": "wild " + " ".join(args)})
     if V:
         return
     for k, v in stats.items():
         ctx.note("branches_" + k, v)
     ctx.note_max("max_output_mib", size >> 20)
+    ctx.note("class:" + cls)
     ctx.held(fingerprint=f"{ci}:{pie}:{stats}", nontrivial=stats["via_thunk"] >= 1,
-             sample={"case": ci, "pie": pie, "objects": len(objs), "output_mib": size >> 20, **stats})
+             sample={"case": ci, "class": cls, "pie": pie, "objects": len(objs), "output_mib": size >> 20, **stats})
 
 
 def main(ctx):
@@ -189,7 +204,7 @@ def main(ctx):
                 "decoded and at least one branch was seen going through a thunk; distinct = (case, kind, branch statistics)")
     ctx.assumptions = ["no AArch64 execution is possible here: control flow is decoded statically", "ld.lld 14 is the accept/reject reference"]
     tools.wild()
-    n = ctx.pick(3, 24)
+    n = ctx.pick(4, 24)
     pmap(lambda i: one(ctx, i), range(n), workers=2)
     # free the object cache early: it holds hundreds of MiB
     shutil.rmtree(os.path.join(ctx.scratch.path, "objcache"), ignore_errors=True)
